@@ -179,7 +179,8 @@ def finish(driver, res: Result, tier: str, seed: int, wall: float) -> int:
         else:
             new.append((d, res.violations[d]))
 
-    vdir = os.path.join(VERIF, 'violations')
+    out = os.environ.get('VERIF_OUT') or VERIF   # VERIF_OUT: tools/seeded.py points runs against scratch trees elsewhere
+    vdir = os.path.join(out, 'violations')
     os.makedirs(vdir, exist_ok=True)
     # remove stale replay files of this property
     for fn in os.listdir(vdir):
@@ -227,7 +228,7 @@ def finish(driver, res: Result, tier: str, seed: int, wall: float) -> int:
         'assumptions': list(getattr(driver, 'ASSUMPTIONS', [])),
         'wall_s': round(wall, 2), 'violations': len(new),
     }
-    edir = os.path.join(VERIF, 'evidence')
+    edir = os.path.join(out, 'evidence')
     os.makedirs(edir, exist_ok=True)
     with open(os.path.join(edir, f'{prop}.json'), 'w') as f:
         json.dump(ev, f, indent=1, sort_keys=True)
